@@ -51,7 +51,7 @@ func (r *Reader) readMdat(b *box) (err error) {
 	}
 	header, err := readExifHeader(&inner, ifds.IFD0, imagetype.ImageHEIF)
 	if err != nil {
-		panic(err)
+		return err
 	}
 
 	if r.ExifReader != nil {
@@ -78,7 +78,7 @@ func (r *Reader) newExifBox(b *box) (inner box, err error) {
 		return
 	}
 	var size int
-	for i := 0; i < len(buf); i += 4 {
+	for i := 0; i+8 <= len(buf); i += 4 {
 		if string(buf[i+4:i+4+4]) == "Exif" {
 			size = int(bmffEndian.Uint32(buf[i:i+4])) + i
 			break
